@@ -29,6 +29,8 @@ def run_prog_property(ck, pid, prop_file, kinds, n_gen_quick, n_gen_thorough, st
         return ck.finish(level="proof", trusted=COMMON_TRUSTED)
     sources = PC.corpus_sources()
     if quick:
+        # the two 500-iteration documentation programs take the extracted models minutes (quick tier only; thorough keeps them)
+        sources = [x for x in sources if "500" not in x[1]]
         ck.rng.shuffle(sources)
         sources = sources[:60]
     n = n_gen_quick if quick else n_gen_thorough
